@@ -201,6 +201,9 @@ def apply_pre(state: State, pre: List[Dict[str, Any]], env: simenv.SimEnv) -> No
 def run_session(sess: Dict[str, Any], world_dir: str, emit: Callable[[Dict[str, Any]], None]) -> int:
     """Returns the process exit code to use."""
     import logging
+    if os.environ.get("VERIF_GC_PROBE"):
+        import gc
+        gc.set_threshold(int(os.environ["VERIF_GC_PROBE"]))
     try:
         from hta.configs.config import logger as hta_logger
         hta_logger.setLevel(getattr(logging, str(sess.get("env", {}).get("log_level", "CRITICAL")), logging.CRITICAL))
@@ -227,6 +230,7 @@ def run_session(sess: Dict[str, Any], world_dir: str, emit: Callable[[Dict[str, 
     base_environ = dict(os.environ)
     for i, o in enumerate(sess["ops"]):
         env.cur_op = i
+        env.clock_jump()
         # per-operation environment flags
         for k in list(os.environ.keys()):
             if k.startswith(("HTA_", "CRITICAL_PATH_")):
